@@ -10,6 +10,7 @@ import (
 	"github.com/gopher-fleece/gleece/v2/generator/swagen/swagen31"
 	"github.com/gopher-fleece/gleece/v2/generator/swagen/swagtool"
 	"github.com/gopher-fleece/gleece/v2/infrastructure/logger"
+	"github.com/gopher-fleece/gleece/v2/infrastructure/verifhook"
 )
 
 // GenerateSpec generates the OpenAPI specification
@@ -58,6 +59,7 @@ func GenerateAndOutputSpec(config *definitions.OpenAPIGeneratorConfig, defs []de
 		logger.Error("Failed to write file - %v", err)
 		return err
 	}
+	verifhook.Emit("SpecWritten", "path", config.SpecGeneratorConfig.OutputPath, "version", config.OpenAPI)
 
 	// Print the path to the generated JSON file
 	logger.Info("OpenAPI specification written to '%s'", config.SpecGeneratorConfig.OutputPath)
